@@ -8,6 +8,7 @@
    `medoid.expect("should be set")` is the result HPanic.
    Entry points for the correspondence: run_kmedoids, run_hkmedoids.  Checker: check_kmedoids.  No proofs here. *)
 From VRP Require Import Base.Tac.
+From VRP Require Import Model.Lkh.   (* only for the multiset-equality test permb *)
 Local Open Scope nat_scope.
 
 Definition kmem (x : nat) (l : list nat) : bool := existsb (Nat.eqb x) l.
@@ -205,17 +206,6 @@ Definition run_hkmedoids (dm : list (list Z)) (data : list nat) (tiers : nat) : 
 (* ---------------------------------------------------------------- executable contract checker
    clauses: 1 = the clusters are a partition of the points (as multisets), 2 = some point is closer to another
    cluster's medoid than to its own *)
-Fixpoint remove1 (x : nat) (l : list nat) : option (list nat) :=
-  match l with
-  | [] => None
-  | y :: r => if x =? y then Some r else option_map (cons y) (remove1 x r)
-  end.
-Fixpoint permb (a b : list nat) : bool :=
-  match a with
-  | [] => match b with [] => true | _ => false end
-  | x :: a' => match remove1 x b with Some b' => permb a' b' | None => false end
-  end.
-
 Definition nearest_ok (d : nat -> nat -> Z) (m : cmap) : bool :=
   forallb (fun kc => forallb (fun p => forallb (fun kc' => (d p (fst kc) <=? d p (fst kc'))%Z) m) (snd kc)) m.
 
